@@ -99,7 +99,7 @@ pub proof fn lemma_if_gen_post(a: Compiler, s_cond: Compiler, e1: Compiler, s_co
         s_cons.last_instruction is None || s_cons.last_instruction == Some(OpCode::Null),
         s_pre.last_instruction is None || s_pre.last_instruction == Some(OpCode::Null),
         hcovers(s_mid.height@, 0), hcovers(fin.height@, 0),
-        sym_depth(fin.symbols) == sym_depth(a.symbols), sym_contexts(fin.symbols) == sym_contexts(a.symbols), sym_outer(fin.symbols) == sym_outer(a.symbols),
+        sym_depth(fin.symbols) == sym_depth(a.symbols), sym_contexts(fin.symbols) == sym_contexts(a.symbols), sym_outer(fin.symbols) == sym_outer(a.symbols), sym_outer_sizes(fin.symbols) == sym_outer_sizes(a.symbols),
     ensures gen_post(a, fin, true)
 {
     let nl = a.loop_contexts@.len() as int;
